@@ -10,6 +10,7 @@
 package main
 
 import (
+	"encoding/json"
 	"flag"
 	"fmt"
 	"go/ast"
@@ -39,13 +40,39 @@ type fnInfo struct {
 	needsNow   bool
 	needsMord  bool
 	outParams  []int // indices of the parameters written through (returned as extra results)
+	mutRecv    bool  // the function stores through its pointer receiver
 	text       string
 	skipped    string
 	done       bool
 	inProgress bool
 }
 
+// extFunc / extStruct / extPkg: what a translated package exports (read from its sidecar JSON)
+type extFunc struct {
+	MutRecv   bool
+	Name      string
+	NeedsFuel bool
+	NeedsOrc  bool
+	NeedsNow  bool
+	NeedsMord bool
+	RecvPtr   bool
+	OutParams []int
+}
+
+type extStruct struct {
+	Zero   string
+	Fields []string
+}
+
+type extPkg struct {
+	Module  string
+	Structs map[string]extStruct
+	Funcs   map[string]extFunc
+}
+
 type tr struct {
+	ext     map[string]*extPkg // import path -> translated package
+	nilable map[string]bool    // "Struct.field": pointer fields compared with or assigned nil somewhere in the package
 	fset    *token.FileSet
 	info    *types.Info
 	pkg     *types.Package
@@ -113,6 +140,33 @@ func (t *tr) ensureStruct(name string) *structInfo {
 	return si
 }
 
+func (t *tr) isNilable(sn, field string) bool { return t.nilable[sn+"."+field] }
+
+// nilableSel: e is x.f where f is a pointer field that the package compares with / sets to nil;
+// such a field is translated to a value field plus a boolean field <S>_<f>_isnil
+func (f *fctx) nilableSel(e ast.Expr) (string, string, ast.Expr, bool) {
+	x, ok := ast.Unparen(e).(*ast.SelectorExpr)
+	if !ok {
+		return "", "", nil, false
+	}
+	sel, ok := f.t.info.Selections[x]
+	if !ok || sel.Kind() != types.FieldVal || len(sel.Index()) != 1 {
+		return "", "", nil, false
+	}
+	sn := f.t.structName(sel.Recv())
+	if sn == "" || !f.t.isNilable(sn, x.Sel.Name) {
+		return "", "", nil, false
+	}
+	return sn, x.Sel.Name, x.X, true
+}
+
+// derefGuard: evaluating e.g or calling a method on e where e is a nilable pointer field panics when it is nil
+func (f *fctx) derefGuard(e ast.Expr) {
+	if sn, fld, base, ok := f.nilableSel(e); ok {
+		f.pre = append(f.pre, fmt.Sprintf("_ <- gnonnil (%s_%s_isnil %s) ;;\n", sn, fld, f.expr(base)))
+	}
+}
+
 func (t *tr) hasField(sn, field string) bool {
 	si := t.ensureStruct(sn)
 	for _, i := range si.fields {
@@ -170,9 +224,39 @@ func (t *tr) structName(ty types.Type) string {
 	return n.Obj().Name()
 }
 
+// extStructOf: a struct type of an imported, translated package
+func (t *tr) extStructOf(ty types.Type) (*extPkg, string) {
+	if p, ok := ty.(*types.Pointer); ok {
+		ty = p.Elem()
+	}
+	n, ok := ty.(*types.Named)
+	if !ok || n.Obj().Pkg() == nil || n.Obj().Pkg() == t.pkg {
+		return nil, ""
+	}
+	ep := t.ext[n.Obj().Pkg().Path()]
+	if ep == nil {
+		return nil, ""
+	}
+	if _, ok := ep.Structs[n.Obj().Name()]; !ok {
+		return nil, ""
+	}
+	return ep, n.Obj().Name()
+}
+
+func isBytesBuffer(ty types.Type) bool {
+	n, ok := ty.(*types.Named)
+	return ok && n.Obj().Pkg() != nil && n.Obj().Pkg().Path() == "bytes" && n.Obj().Name() == "Buffer"
+}
+
 func (t *tr) gtype(ty types.Type) string {
 	if t.isErr(ty) {
 		return "gerr"
+	}
+	if isBytesBuffer(ty) {
+		return "bytes"
+	}
+	if ep, n := t.extStructOf(ty); ep != nil {
+		return ep.Module + ".go_" + n
 	}
 	if s := t.structName(ty); s != "" {
 		t.ensureStruct(s)
@@ -211,11 +295,20 @@ func (t *tr) zero(ty types.Type) string {
 	if t.isErr(ty) {
 		return "ENil"
 	}
+	if isBytesBuffer(ty) {
+		return "([] : bytes)"
+	}
+	if ep, n := t.extStructOf(ty); ep != nil {
+		return ep.Structs[n].Zero
+	}
 	if s := t.structName(ty); s != "" {
 		si := t.ensureStruct(s)
 		parts := []string{"mk_go_" + s}
 		for _, i := range si.fields {
 			parts = append(parts, t.zero(si.st.Field(i).Type()))
+			if t.isNilable(s, si.st.Field(i).Name()) {
+				parts = append(parts, "true")
+			}
 		}
 		return "(" + strings.Join(parts, " ") + ")"
 	}
@@ -296,6 +389,8 @@ type fctx struct {
 	outs    map[*types.Var]bool // parameters written through (known from the first pass)
 	found   map[*types.Var]bool // parameters found to be written through in this pass
 	reass   map[*types.Var]bool // variables re-assigned as a whole
+	recvMut bool                // a store through the receiver happened
+	untr    map[*types.Var]bool // reference-typed locals holding a value that may share storage with something else
 }
 
 // aliasInfo: variable x was defined as base[lo:hi] (or as base itself when whole):
@@ -376,6 +471,12 @@ func (f *fctx) storeVar(v *types.Var, val string, wt bool) string {
 	}
 	if v == f.recvObj && !f.fn.recvPtr {
 		fail("store through the value receiver %s", v.Name())
+	}
+	if v == f.recvObj {
+		f.recvMut = true
+	}
+	if f.untr[v] && f.aliases[v] == nil {
+		fail("store through %s, which may share storage with another value (untracked alias)", v.Name())
 	}
 	if f.isParam(v) {
 		if _, isPtr := v.Type().(*types.Pointer); isPtr {
@@ -617,6 +718,15 @@ func (f *fctx) expr(e ast.Expr) string {
 	case *ast.SelectorExpr:
 		// field access on a struct value / pointer
 		if sel, ok := f.t.info.Selections[x]; ok && sel.Kind() == types.FieldVal {
+			f.derefGuard(x.X)
+			if ep, en := f.t.extStructOf(sel.Recv()); ep != nil {
+				for _, fl := range ep.Structs[en].Fields {
+					if fl == x.Sel.Name {
+						return "(" + ep.Module + "." + en + "_" + fl + " " + f.expr(x.X) + ")"
+					}
+				}
+				fail("field %s.%s of an imported struct is not translated", en, x.Sel.Name)
+			}
 			sn := f.t.structName(sel.Recv())
 			if sn == "" {
 				fail("field of %s", sel.Recv())
@@ -663,6 +773,12 @@ func (f *fctx) compositeLit(cl *ast.CompositeLit) string {
 					fty = si.st.Field(i).Type()
 				}
 			}
+			if f.t.isNilable(sn, k) && f.isNil(kv.Value) {
+				continue // an explicit nil is the zero value
+			}
+			if _, _, _, nl := f.nilableSel(kv.Value); nl {
+				fail("a nilable pointer copied into a struct literal")
+			}
 			vals[k] = f.exprT(kv.Value, fty)
 		}
 		parts := []string{"mk_go_" + sn}
@@ -670,8 +786,14 @@ func (f *fctx) compositeLit(cl *ast.CompositeLit) string {
 			fl := si.st.Field(i)
 			if v, ok := vals[fl.Name()]; ok {
 				parts = append(parts, v)
+				if f.t.isNilable(sn, fl.Name()) {
+					parts = append(parts, "false")
+				}
 			} else {
 				parts = append(parts, f.t.zero(fl.Type()))
+				if f.t.isNilable(sn, fl.Name()) {
+					parts = append(parts, "true")
+				}
 			}
 		}
 		return "(" + strings.Join(parts, " ") + ")"
@@ -759,6 +881,9 @@ func (f *fctx) binary(x *ast.BinaryExpr) string {
 		}
 		if f.isNil(b) {
 			ty := f.typeOf(a)
+			if sn, fld, base, ok := f.nilableSel(a); ok {
+				return neg("(" + sn + "_" + fld + "_isnil " + f.expr(base) + ")")
+			}
 			if f.t.isErr(ty) {
 				return neg("(err_is_nil " + f.expr(a) + ")")
 			}
@@ -903,7 +1028,57 @@ func (f *fctx) call(x *ast.CallExpr, n int) []string {
 	case *ast.SelectorExpr:
 		if fo, ok := f.t.info.Uses[fun.Sel].(*types.Func); ok {
 			if fo.Pkg() != nil && fo.Pkg() != f.t.pkg {
+				if ep := f.t.ext[fo.Pkg().Path()]; ep != nil {
+					// a function or method of an imported, translated package
+					key := fo.Name()
+					if sig := fo.Type().(*types.Signature); sig.Recv() != nil {
+						rt := sig.Recv().Type()
+						if p, ok := rt.(*types.Pointer); ok {
+							rt = p.Elem()
+						}
+						if n, ok := rt.(*types.Named); ok {
+							key = n.Obj().Name() + "." + fo.Name()
+						}
+					}
+					ef, ok := ep.Funcs[key]
+					if !ok {
+						fail("%s.%s is not translated", fo.Pkg().Name(), key)
+					}
+					ci := &fnInfo{obj: fo, name: ep.Module + "." + ef.Name, key: fo.Pkg().Name() + "." + key, recvPtr: ef.RecvPtr, mutRecv: ef.MutRecv,
+						needsFuel: ef.NeedsFuel, needsOrc: ef.NeedsOrc, needsNow: ef.NeedsNow, needsMord: ef.NeedsMord,
+						outParams: ef.OutParams, done: true}
+					f.t.funcs[fo] = ci
+					var recv ast.Expr
+					if fo.Type().(*types.Signature).Recv() != nil {
+						recv = fun.X
+					}
+					return f.callFunc(fo, recv, x, n)
+				}
+				// methods of a bytes.Buffer variable (translated to a byte string)
+				if sig := fo.Type().(*types.Signature); sig.Recv() != nil && fo.Pkg().Path() == "bytes" {
+					if p, ok := sig.Recv().Type().(*types.Pointer); ok && isBytesBuffer(p.Elem()) {
+						cur := f.expr(fun.X)
+						switch fo.Name() {
+						case "Write", "WriteString":
+							a := f.expr(x.Args[0])
+							f.pre = append(f.pre, f.setLHSw(fun.X, "("+cur+" ++ "+a+")", false))
+							return []string{"(zlen " + a + ")", "ENil"}[:max0(n, 2)]
+						case "Bytes", "String":
+							return []string{cur}
+						case "Len":
+							return []string{"(zlen " + cur + ")"}
+						case "Reset":
+							f.pre = append(f.pre, f.setLHSw(fun.X, "([] : bytes)", false))
+							return nil
+						}
+						fail("bytes.Buffer.%s", fo.Name())
+					}
+				}
 				switch fo.Pkg().Path() + "." + fo.Name() {
+				case "github.com/xujiajun/utils/strconv2.IntToStr", "github.com/xujiajun/utils/strconv2.Int64ToStr", "strconv.Itoa":
+					return []string{"(print_Z " + f.expr(x.Args[0]) + ")"}
+				case "strings.Contains", "bytes.Contains":
+					return []string{"(bytes_contains " + f.expr(x.Args[0]) + " " + f.expr(x.Args[1]) + ")"}
 				case "bytes.Equal":
 					return []string{"(bytes_eqb " + f.expr(x.Args[0]) + " " + f.expr(x.Args[1]) + ")"}
 				case "bytes.Compare":
@@ -947,7 +1122,8 @@ func (f *fctx) call(x *ast.CallExpr, n int) []string {
 				case "errors.New":
 					tv := f.t.info.Types[x.Args[0]]
 					if tv.Value == nil || tv.Value.Kind() != constant.String {
-						fail("errors.New of a non-constant")
+						// a message computed at run time: only its being non-nil matters to the callers
+						return []string{"(ENewB " + f.expr(x.Args[0]) + ")"}
 					}
 					return []string{"(ENew " + coqString(constant.StringVal(tv.Value)) + ")"}
 				}
@@ -958,6 +1134,16 @@ func (f *fctx) call(x *ast.CallExpr, n int) []string {
 	}
 	fail("call at %s", f.t.fset.Position(x.Pos()))
 	return nil
+}
+
+func max0(n, m int) int {
+	if n < 0 {
+		return 0
+	}
+	if n > m {
+		return m
+	}
+	return n
 }
 
 func (f *fctx) callFunc(fo *types.Func, recv ast.Expr, x *ast.CallExpr, n int) []string {
@@ -996,32 +1182,36 @@ func (f *fctx) callFunc(fo *types.Func, recv ast.Expr, x *ast.CallExpr, n int) [
 		args = append(args, "mord")
 	}
 	var recvLHS ast.Expr
+	recvPat := false
 	if sig.Recv() != nil {
 		if recv == nil {
 			fail("method value")
 		}
+		f.derefGuard(recv)
 		args = append(args, f.expr(recv))
 		if ci.recvPtr {
 			recvLHS = recv
 		}
+		recvPat = ci.recvPtr
 	}
 	if sig.Variadic() {
 		np := sig.Params().Len()
 		for i := 0; i < np-1; i++ {
-			args = append(args, f.expr(x.Args[i]))
+			args = append(args, f.exprT(x.Args[i], sig.Params().At(i).Type()))
 		}
 		if x.Ellipsis != token.NoPos {
-			args = append(args, f.expr(x.Args[np-1]))
+			args = append(args, f.exprT(x.Args[np-1], sig.Params().At(np-1).Type()))
 		} else {
+			et := sig.Params().At(np - 1).Type().(*types.Slice).Elem()
 			var el []string
 			for _, a := range x.Args[np-1:] {
-				el = append(el, f.expr(a))
+				el = append(el, f.exprT(a, et))
 			}
 			args = append(args, "["+strings.Join(el, "; ")+"]")
 		}
 	} else {
-		for _, a := range x.Args {
-			args = append(args, f.expr(a))
+		for i, a := range x.Args {
+			args = append(args, f.exprT(a, sig.Params().At(i).Type()))
 		}
 	}
 	nres := sig.Results().Len()
@@ -1037,8 +1227,13 @@ func (f *fctx) callFunc(fo *types.Func, recv ast.Expr, x *ast.CallExpr, n int) [
 		pat = "_"
 	}
 	rn := ""
-	if recvLHS != nil {
-		rn = f.fresh("rcv")
+	if recvPat {
+		rn = "_"
+		if ci.mutRecv {
+			rn = f.fresh("rcv")
+		} else {
+			recvLHS = nil // the callee does not store through its receiver: nothing to store back
+		}
 		pat = "(" + rn + ", " + pat + ")"
 	}
 	var outNames []string
@@ -1121,6 +1316,13 @@ func (f *fctx) setLHSw(lhs ast.Expr, val string, wt bool) string {
 		fail("assignment to an index of %s", bt)
 	case *ast.SelectorExpr:
 		if sel, ok := f.t.info.Selections[x]; ok && sel.Kind() == types.FieldVal && len(sel.Index()) == 1 {
+			f.derefGuard(x.X)
+			if ep, en := f.t.extStructOf(sel.Recv()); ep != nil {
+				nv := "(" + ep.Module + ".set_" + en + "_" + x.Sel.Name + " " + f.expr(x.X) + " " + val + ")"
+				pre := f.takePre()
+				_, viaPtr := f.typeOf(x.X).(*types.Pointer)
+				return pre + f.setLHSw(x.X, nv, wt || viaPtr)
+			}
 			sn := f.t.structName(sel.Recv())
 			if sn == "" || !f.t.hasField(sn, x.Sel.Name) {
 				fail("field of %s", sel.Recv())
@@ -1425,9 +1627,27 @@ func (f *fctx) assign(s *ast.AssignStmt) string {
 	}
 	if len(s.Lhs) == len(s.Rhs) {
 		if len(s.Lhs) == 1 {
+			if sn, fld, base, ok := f.nilableSel(s.Lhs[0]); ok {
+				// x.f = nil / x.f = <non-nil pointer>
+				if f.isNil(s.Rhs[0]) {
+					nv := "(set_" + sn + "_" + fld + "_isnil " + f.expr(base) + " true)"
+					pre := f.takePre()
+					_, viaPtr := f.typeOf(base).(*types.Pointer)
+					return pre + f.setLHSw(base, nv, viaPtr)
+				}
+				if _, _, _, nl := f.nilableSel(s.Rhs[0]); nl {
+					fail("a nilable pointer copied into a nilable field")
+				}
+				v := f.exprT(s.Rhs[0], f.t.info.TypeOf(s.Lhs[0]))
+				nv := "(set_" + sn + "_" + fld + "_isnil (set_" + sn + "_" + fld + " " + f.expr(base) + " " + v + ") false)"
+				pre := f.takePre()
+				_, viaPtr := f.typeOf(base).(*types.Pointer)
+				return pre + f.setLHSw(base, nv, viaPtr)
+			}
 			if out, ok := f.aliasAssign(s.Lhs[0], s.Rhs[0]); ok {
 				return out
 			}
+			f.noteFreshness(s.Lhs[0], s.Rhs[0])
 			v := f.exprT(s.Rhs[0], f.t.info.TypeOf(s.Lhs[0]))
 			pre := f.takePre()
 			return pre + f.setLHS(s.Lhs[0], v)
@@ -1454,6 +1674,11 @@ func (f *fctx) assign(s *ast.AssignStmt) string {
 		rs := f.call(r, len(s.Lhs))
 		out := f.takePre()
 		for i, l := range s.Lhs {
+			if id, ok := ast.Unparen(l).(*ast.Ident); ok && id.Name != "_" {
+				if x := f.varOf(id); x != nil && isRefType(x.Type()) {
+					f.untr[x] = true
+				}
+			}
 			out += f.setLHS(l, rs[i])
 		}
 		return out
@@ -1517,6 +1742,39 @@ func (f *fctx) aliasAssign(lhs, rhs ast.Expr) (string, bool) {
 		return out, true
 	}
 	return "", false
+}
+
+// noteFreshness: after x = rhs, may x share storage with another value?  Fresh: nil, make, a
+// composite literal, append to a fresh value, and x = f(.., x, ..) when x was fresh (the callee returns its argument)
+func (f *fctx) noteFreshness(lhs, rhs ast.Expr) {
+	id, ok := ast.Unparen(lhs).(*ast.Ident)
+	if !ok || id.Name == "_" {
+		return
+	}
+	x := f.varOf(id)
+	if x == nil || !isRefType(x.Type()) {
+		return
+	}
+	fresh := false
+	switch r := ast.Unparen(rhs).(type) {
+	case *ast.CompositeLit:
+		fresh = true
+	case *ast.UnaryExpr:
+		_, fresh = ast.Unparen(r.X).(*ast.CompositeLit)
+	case *ast.Ident:
+		fresh = r.Name == "nil"
+	case *ast.CallExpr:
+		if fid, ok := r.Fun.(*ast.Ident); ok && (fid.Name == "make" || fid.Name == "new") {
+			fresh = true
+		} else {
+			for _, a := range r.Args {
+				if aid, ok := ast.Unparen(a).(*ast.Ident); ok && f.varOf(aid) == x && !f.untr[x] {
+					fresh = true
+				}
+			}
+		}
+	}
+	f.untr[x] = !fresh
 }
 
 func (f *fctx) resultNames() []string {
@@ -1885,7 +2143,7 @@ func (t *tr) translate(fi *fnInfo) {
 func (t *tr) emit(fi *fnInfo) (string, map[*types.Var]bool) {
 	sig := fi.obj.Type().(*types.Signature)
 	f := &fctx{t: t, fn: fi, names: map[types.Object]string{}, used: map[string]int{}, sig: sig,
-		aliases: map[*types.Var]*aliasInfo{}, found: map[*types.Var]bool{}, reass: map[*types.Var]bool{}}
+		aliases: map[*types.Var]*aliasInfo{}, found: map[*types.Var]bool{}, reass: map[*types.Var]bool{}, untr: map[*types.Var]bool{}}
 	var params []string
 	if sig.Recv() != nil {
 		f.recvObj = sig.Recv()
@@ -1969,6 +2227,7 @@ func (t *tr) emit(fi *fnInfo) (string, map[*types.Var]bool) {
 		extra = "(fuel : nat) " + extra
 	}
 	pos := t.fset.Position(fi.decl.Pos())
+	fi.mutRecv = f.recvMut
 	for v := range f.found {
 		if f.reass[v] {
 			fail("parameter %s is both re-assigned and written through", v.Name())
@@ -2019,6 +2278,8 @@ func main() {
 	outp := flag.String("out", "", "output .v file")
 	only := flag.String("only", "", "comma-separated list of functions (Recv.Name or Name); default all")
 	skipfiles := flag.String("skipfiles", "", "comma-separated file names to leave out")
+	module := flag.String("module", "", "Coq module name of the output (recorded in the sidecar, used by importing packages)")
+	imports := flag.String("imports", "", "comma-separated list importpath=sidecar.json of already translated packages")
 	flag.Parse()
 	skip := map[string]bool{}
 	for _, s := range strings.Split(*skipfiles, ",") {
@@ -2062,7 +2323,78 @@ func main() {
 	if nerr > 0 {
 		os.Exit(2)
 	}
-	t := &tr{fset: fset, info: info, pkg: pkg, funcs: map[*types.Func]*fnInfo{}, structs: map[string]*structInfo{}, only: map[string]bool{}}
+	t := &tr{fset: fset, info: info, pkg: pkg, funcs: map[*types.Func]*fnInfo{}, structs: map[string]*structInfo{}, only: map[string]bool{},
+		ext: map[string]*extPkg{}, nilable: map[string]bool{}}
+	for _, im := range strings.Split(*imports, ",") {
+		if im == "" {
+			continue
+		}
+		kv := strings.SplitN(im, "=", 2)
+		if len(kv) != 2 {
+			fmt.Fprintln(os.Stderr, "bad -imports entry", im)
+			os.Exit(2)
+		}
+		data, err := os.ReadFile(kv[1])
+		if err != nil {
+			fmt.Fprintln(os.Stderr, err)
+			os.Exit(2)
+		}
+		ep := &extPkg{}
+		if err := json.Unmarshal(data, ep); err != nil {
+			fmt.Fprintln(os.Stderr, kv[1], err)
+			os.Exit(2)
+		}
+		t.ext[kv[0]] = ep
+	}
+	// pointer fields that some code of the package compares with nil or sets to nil
+	for _, file := range files {
+		ast.Inspect(file, func(n ast.Node) bool {
+			mark := func(e ast.Expr) {
+				x, ok := ast.Unparen(e).(*ast.SelectorExpr)
+				if !ok {
+					return
+				}
+				sel, ok := info.Selections[x]
+				if !ok || sel.Kind() != types.FieldVal || len(sel.Index()) != 1 {
+					return
+				}
+				if _, isPtr := sel.Type().(*types.Pointer); !isPtr {
+					return
+				}
+				if sn := t.structName(sel.Recv()); sn != "" {
+					t.nilable[sn+"."+x.Sel.Name] = true
+				}
+			}
+			isNilId := func(e ast.Expr) bool {
+				id, ok := ast.Unparen(e).(*ast.Ident)
+				if !ok || id.Name != "nil" {
+					return false
+				}
+				_, isnil := info.Uses[id].(*types.Nil)
+				return isnil
+			}
+			switch x := n.(type) {
+			case *ast.BinaryExpr:
+				if x.Op == token.EQL || x.Op == token.NEQ {
+					if isNilId(x.Y) {
+						mark(x.X)
+					}
+					if isNilId(x.X) {
+						mark(x.Y)
+					}
+				}
+			case *ast.AssignStmt:
+				if len(x.Lhs) == len(x.Rhs) {
+					for i := range x.Lhs {
+						if isNilId(x.Rhs[i]) {
+							mark(x.Lhs[i])
+						}
+					}
+				}
+			}
+			return true
+		})
+	}
 	for _, s := range strings.Split(*only, ",") {
 		if s != "" {
 			t.only[s] = true
@@ -2111,16 +2443,33 @@ func main() {
 	}
 	var b strings.Builder
 	fmt.Fprintf(&b, "(** GENERATED by /verif/translator from package %s (%s) — do not edit.\n    Regenerated from /repo on every check; the meaning of the combinators is in GoSem.v. *)\n", pname, *dir)
-	b.WriteString("From Verif Require Import Bytes Crc32 ListDS.\nFrom VerifGo Require Import GoSem.\nFrom Coq Require Import Strings.String.\nOpen Scope Z_scope.\nOpen Scope bool_scope.\n\n")
+	b.WriteString("From Verif Require Import Bytes Crc32 Dec ListDS.\nFrom VerifGo Require Import GoSem.\n")
+	var mods []string
+	for _, ep := range t.ext {
+		mods = append(mods, ep.Module)
+	}
+	sort.Strings(mods)
+	if len(mods) > 0 {
+		b.WriteString("From VerifGen Require " + strings.Join(mods, " ") + ".\n")
+	}
+	b.WriteString("From Coq Require Import Strings.String.\nOpen Scope Z_scope.\nOpen Scope bool_scope.\n\n")
 	// records for the structs used
+	side := &extPkg{Module: *module, Structs: map[string]extStruct{}, Funcs: map[string]extFunc{}}
 	for _, n := range t.sorder {
 		si := t.structs[n]
 		if !si.used {
 			continue
 		}
-		var fs []string
+		type fld struct{ name, ty string }
+		var fls []fld
+		var names []string
 		for _, i := range si.fields {
-			fs = append(fs, fmt.Sprintf("%s_%s : %s", n, si.st.Field(i).Name(), t.gtype(si.st.Field(i).Type())))
+			fn := si.st.Field(i).Name()
+			fls = append(fls, fld{n + "_" + fn, t.gtype(si.st.Field(i).Type())})
+			names = append(names, fn)
+			if t.isNilable(n, fn) {
+				fls = append(fls, fld{n + "_" + fn + "_isnil", "bool"})
+			}
 		}
 		if len(si.fields) < si.st.NumFields() {
 			var om []string
@@ -2135,25 +2484,54 @@ func main() {
 			}
 			fmt.Fprintf(&b, "(* fields of %s left out (untranslatable types): %s *)\n", n, strings.Join(om, ", "))
 		}
+		var fs []string
+		for _, fl := range fls {
+			fs = append(fs, fl.name+" : "+fl.ty)
+		}
 		fmt.Fprintf(&b, "Record go_%s := mk_go_%s { %s }.\n", n, n, strings.Join(fs, "; "))
-		for _, i := range si.fields {
+		for i, fl := range fls {
 			var args []string
-			for _, j := range si.fields {
+			for j, g := range fls {
 				if i == j {
 					args = append(args, "x")
 				} else {
-					args = append(args, fmt.Sprintf("(%s_%s r)", n, si.st.Field(j).Name()))
+					args = append(args, "("+g.name+" r)")
 				}
 			}
-			fmt.Fprintf(&b, "Definition set_%s_%s (r : go_%s) (x : %s) : go_%s := mk_go_%s %s.\n", n, si.st.Field(i).Name(), n, t.gtype(si.st.Field(i).Type()), n, n, strings.Join(args, " "))
+			fmt.Fprintf(&b, "Definition set_%s (r : go_%s) (x : %s) : go_%s := mk_go_%s %s.\n", fl.name, n, fl.ty, n, n, strings.Join(args, " "))
 		}
 		b.WriteString("\n")
+		zero := func() (z string) {
+			defer func() {
+				if r := recover(); r != nil {
+					z = ""
+				}
+			}()
+			return t.zero(pkg.Scope().Lookup(n).Type())
+		}()
+		if *module != "" {
+			zero = strings.ReplaceAll(zero, "mk_go_", *module+".mk_go_")
+		}
+		side.Structs[n] = extStruct{Zero: zero, Fields: names}
 	}
 	ntr := 0
 	for _, fi := range t.order {
 		if fi.skipped == "" {
 			b.WriteString(fi.text + "\n")
 			ntr++
+		}
+	}
+	for _, fi := range t.order {
+		if fi.skipped == "" {
+			side.Funcs[fi.key] = extFunc{MutRecv: fi.mutRecv, Name: fi.name, NeedsFuel: fi.needsFuel, NeedsOrc: fi.needsOrc, NeedsNow: fi.needsNow,
+				NeedsMord: fi.needsMord, RecvPtr: fi.recvPtr, OutParams: fi.outParams}
+		}
+	}
+	if *outp != "" && *module != "" {
+		js, _ := json.MarshalIndent(side, "", " ")
+		if err := os.WriteFile(strings.TrimSuffix(*outp, ".v")+".json", js, 0o644); err != nil {
+			fmt.Fprintln(os.Stderr, err)
+			os.Exit(2)
 		}
 	}
 	b.WriteString("(* not translated:\n")
